@@ -225,6 +225,7 @@ pub proof fn lemma_phase2_next_tx(c1: IMap<CoinID, CoinDataHeight>, c: IMap<Coin
     assert forall|x: CoinID| true implies (#[trigger] spent_by(txx, j + 1, x) <==> (spent_by(txx, j, x) || spent_upto(txx[j], txx[j].inputs@.len() as int, x))) by { lemma_spent_by_next(txx, j, x); }
     assert forall|x: CoinID| 0 <= j + 1 < txx.len() implies !#[trigger] spent_upto(txx[j + 1], 0, x) by {}
 }
+//@LEMMA C02 lemma_phases_to_batch creation phase then removal phase = the exact-set transition
 pub proof fn lemma_phases_to_batch(c0: IMap<CoinID, CoinDataHeight>, c1: IMap<CoinID, CoinDataHeight>, c: IMap<CoinID, CoinDataHeight>, txx: Seq<Transaction>, rel: Map<CoinID, CoinDataHeight>)
     requires phase1(c0, c1, txx, txx.len() as int, false, rel, 0), phase2(c1, c, txx, txx.len() as int, 0)
     ensures batch_coins(c0, c, txx, rel)
